@@ -1349,7 +1349,7 @@ impl Engine for SeqEng {
             .boxed()
     }
     fn run(&self, prop: &str, case: &SCase) -> CaseOut {
-        let tier = std::env::var("SEQ_TIER").unwrap_or_else(|_| "quick".into());
+        let tier = driver::case_tier();
         run_case(prop, case, &caps_for(&tier))
     }
     fn encode(&self, case: &SCase) -> String {
